@@ -220,10 +220,12 @@ def main():
         st = os.stat(path)
         os.utime(path, (st.st_atime + 2 * version, st.st_mtime + 2 * version))
 
-    def run(pkg, confname):
+    def run(pkg, confname, optimize=False):
         code = RUNNER.format(repo=REPO, src=src_dir, conf=CONFIGS[confname], pkg=pkg)
         try:
-            p = subprocess.run([sys.executable, '-c', code], env=env, capture_output=True, text=True, timeout=120)
+            # (python -O: the interpreter's own optimisation tag joins beartype's marker in the cache file name)
+            p = subprocess.run([sys.executable] + (['-O'] if optimize else []) + ['-c', code], env=env, capture_output=True, text=True,
+                               timeout=120)
         except subprocess.TimeoutExpired:
             return None
         W.count('interpreter_runs')
@@ -234,11 +236,12 @@ def main():
 
     cold_cache = {}
 
-    def cold(confname, version):
-        key = (confname, version)
+    def cold(confname, version, optimize=False):
+        # (beartype switches itself off under python -O: the reference is taken under the same interpreter flags)
+        key = (confname, version, optimize)
         if key not in cold_cache:
             pkg = new_pkg(version)
-            cold_cache[key] = run(pkg, confname)
+            cold_cache[key] = run(pkg, confname, optimize)
             shutil.rmtree(os.path.join(src_dir, pkg), ignore_errors=True)
             W.count('cold_reference_runs')
         return cold_cache[key]
@@ -330,9 +333,12 @@ def main():
                 if ed and step > 0 and version < 3:
                     version += 1
                     write_version(pkg, version)
-                got = run(pkg, cn)
-                want = cold(cn, version)
-                hist.append((cn, version))
+                opt_run = rng.random() < .2
+                if opt_run:
+                    W.count('history_runs_under_python_O')
+                got = run(pkg, cn, optimize=opt_run)
+                want = cold(cn, version, opt_run)
+                hist.append((cn + (' (python -O)' if opt_run else ''), version))
                 W.count('history_runs')
                 wit = dict(history=hist, step=step)
                 if got is None or want is None:
@@ -340,10 +346,10 @@ def main():
                     break
                 if got != want:
                     # mechanism: which earlier configuration wrote the cache that was reused
-                    prev_shapes = {AST_SHAPE[c] for c, v in hist[:-1] if v == version and c != 'off'}
+                    prev_shapes = {AST_SHAPE[c.split(' (')[0]] for c, v in hist[:-1] if v == version and c.split(' (')[0] != 'off'}
                     if cn != 'off' and prev_shapes and AST_SHAPE[cn] not in prev_shapes:
                         key = 'marker-ignores-conf'
-                    elif cn == 'off' or all(c == 'off' for c, v in hist[:-1]):
+                    elif cn == 'off' or all(c.split(' (')[0] == 'off' for c, v in hist[:-1]):
                         key = 'hooked-unhooked-cache-mixed'
                     else:
                         key = 'stale-or-wrong-cache'
